@@ -58,6 +58,8 @@ type world struct {
 	values map[string][]string
 	wide   int    // >0: a label with this many distinct values (postings offset table sampling boundaries)
 	wname  string // its name
+	shuffle int   // >0: head series created with explicit refs in non-monotonic order (1 random, 2 corpus)
+	unsorted []string // Go-side check: head postings lists that are not sorted by ref
 }
 
 func check(err error) {
@@ -110,6 +112,33 @@ var valuePool = map[string][]string{
 	"job": {"api", "db"},
 }
 
+// unsortedPostings lists the head postings lists (name=value) that are not strictly sorted by ref.
+func unsortedPostings(h *tsdb.Head) []string {
+	ir, err := h.Index()
+	check(err)
+	defer ir.Close()
+	names, err := ir.LabelNames(ctx)
+	check(err)
+	var bad []string
+	for _, n := range append([]string{""}, names...) {
+		vs, err := ir.LabelValues(ctx, n, nil)
+		check(err)
+		for _, v := range vs {
+			p, err := ir.Postings(ctx, n, v)
+			check(err)
+			refs, err := index.ExpandPostings(p)
+			check(err)
+			for i := 1; i < len(refs); i++ {
+				if refs[i-1] >= refs[i] {
+					bad = append(bad, fmt.Sprintf("%s=%q: %v", n, v, refs))
+					break
+				}
+			}
+		}
+	}
+	return bad
+}
+
 // readStore reads a store back through its IndexReader.
 func readStore(ir tsdb.IndexReader, head bool, min, max int64, headChunks map[string][2]int64) (string, int) {
 	k, v := index.AllPostingsKey()
@@ -160,14 +189,14 @@ func readStore(ir tsdb.IndexReader, head bool, min, max int64, headChunks map[st
 	return fmt.Sprintf("(mkSt %s %s %s %s %s)", kind, gallina.Z(min), gallina.Z(max), gallina.List(ss), gallina.List(lvs)), len(refs)
 }
 
-func buildWorld(r *gen.Rand, wi int, dir string, thorough bool, wide int, wname string) *world {
+func buildWorld(r *gen.Rand, wi int, dir string, thorough bool, wide int, wname string, shuffle int) *world {
 	opts := tsdb.DefaultOptions()
 	opts.WALSegmentSize = -1
 	opts.RetentionDuration = 0
 	db, err := tsdb.Open(dir, nil, nil, opts, nil)
 	check(err)
 	db.DisableCompactions()
-	w := &world{db: db, values: map[string][]string{}, wide: wide, wname: wname}
+	w := &world{db: db, values: map[string][]string{}, wide: wide, wname: wname, shuffle: shuffle}
 
 	// series
 	maxSeries := 8
@@ -187,6 +216,18 @@ func buildWorld(r *gen.Rand, wi int, dir string, thorough bool, wide int, wname 
 				b.Set("a", "x")
 			}
 			w.series = append(w.series, &tseries{lset: b.Labels()})
+		}
+	}
+	if shuffle == 2 {
+		n = 0 // corpus: two older series, then new series sharing pairs no older series has
+		for _, l := range []labels.Labels{
+			labels.FromStrings("a", "x", "job", "api"),
+			labels.FromStrings("a", "y", "b", "1", "job", "api"),
+			labels.FromStrings("a", "x", "c", "foo", "job", "db"),
+			labels.FromStrings("c", "bar", "job", "db"),
+			labels.FromStrings("a", "z", "b", "2", "c", "baz", "job", "db"),
+		} {
+			w.series = append(w.series, &tseries{lset: l})
 		}
 	}
 	seen := map[string]bool{}
@@ -212,6 +253,12 @@ func buildWorld(r *gen.Rand, wi int, dir string, thorough bool, wide int, wname 
 	if wide > 0 {
 		layout = 2 // the same data in a persisted block and in the head
 	}
+	if shuffle > 0 {
+		layout = 2 * r.Intn(2) // head only, or block + head (block refs are monotonic: contrast)
+		if shuffle == 2 {
+			layout = 2
+		}
+	}
 	_ = layout // 0: head only, 1: one block only, 2: block+head, 3: two blocks, 4: two blocks+head, 5: like 4
 	phases := []bool{false, false, false}
 	switch layout {
@@ -235,9 +282,49 @@ func buildWorld(r *gen.Rand, wi int, dir string, thorough bool, wide int, wname 
 		for _, s := range w.series {
 			s.headTs = nil
 		}
+		if shuffle > 0 && ph == 2 {
+			// create the head series with explicit refs whose order differs from the insertion
+			// order (refs are allocated before MemPostings.Add runs; concurrent appenders and
+			// WAL replay can reach Add in any order)
+			n := len(w.series)
+			refs := make([]uint64, n)
+			pat := r.Intn(3)
+			if shuffle == 2 {
+				pat = 1
+			}
+			for i := range refs {
+				switch pat {
+				case 0: // random permutation
+					refs[i] = uint64(5000 + i)
+				case 1: // every new ref is the lowest so far
+					refs[i] = uint64(5000 + n - i)
+				default: // ascending, but the last one is the lowest
+					refs[i] = uint64(5001 + i)
+					if i == n-1 {
+						refs[i] = 5000
+					}
+				}
+			}
+			if pat == 0 {
+				for i := n - 1; i > 0; i-- {
+					j := r.Intn(i + 1)
+					refs[i], refs[j] = refs[j], refs[i]
+				}
+			}
+			if shuffle == 2 { // the two older series first and lowest, then the new ones descending
+				refs = []uint64{5001, 5002, 5013, 5012, 5011}
+			}
+			for i, s := range w.series {
+				_, err := db.Head().VerifCreateSeriesWithRef(chunks.HeadSeriesRef(refs[i]), s.lset)
+				check(err)
+			}
+		}
 		app := db.Appender(ctx)
 		for si, s := range w.series {
 			k := r.Intn(4) // 0..3 samples in this phase
+			if shuffle > 0 && ph == 2 {
+				k = 1 + r.Intn(3) // every explicitly created series gets data
+			}
 			if wide > 0 {
 				k = 1
 			}
@@ -265,6 +352,7 @@ func buildWorld(r *gen.Rand, wi int, dir string, thorough bool, wide int, wname 
 	}
 	// read the stores back
 	h := db.Head()
+	w.unsorted = unsortedPostings(h)
 	headChunks := map[string][2]int64{}
 	if phases[2] {
 		for _, s := range w.series {
@@ -592,7 +680,7 @@ func pickTime(r *gen.Rand, w *world) int64 {
 func main() {
 	f := gallina.ParseFlags()
 	meta := gallina.NewMeta("C16", f.Seed, f.Tier)
-	meta.Rule = "one case = one query on a real querier; world 0 replays the corpus of empty-label-name reproducers; every 10th world (and worlds 1, 2 as corpus: 33 and 65 values) is a wide world: a label with 31..97 distinct values (postings offset table sampling boundaries) in a block and in the head, queried with LabelValues and regex/non-empty/empty matchers on it; worlds (DBs) are generated with 1..8 (thorough 14) series over 4 label names, samples in up to 3 phases (2 compacted to blocks, 1 in head); queries: Select(sorted/unsorted) / LabelValues / LabelNames with 0..4 generated matchers (=,!=,=~,!~; regexes from a pool incl. .*, .+, empty-matching, set-style, negations on absent labels, duplicates on one name), time range, limit; targets: one block, range head, DB.Querier. non-trivial = at least one matcher and the unlimited answer is neither empty nor everything stored; distinct by (world, target, query, matchers, range)"
+	meta.Rule = "one case = one query on a real querier; world 0 replays the corpus of empty-label-name reproducers; worlds 4 (corpus), 6, 8 mod 10 create the head series with explicit refs in non-monotonic insertion order (Head.VerifCreateSeriesWithRef), and every head's postings lists are checked Go-side to be sorted by ref; every 10th world (and worlds 1, 2 as corpus: 33 and 65 values) is a wide world: a label with 31..97 distinct values (postings offset table sampling boundaries) in a block and in the head, queried with LabelValues and regex/non-empty/empty matchers on it; worlds (DBs) are generated with 1..8 (thorough 14) series over 4 label names, samples in up to 3 phases (2 compacted to blocks, 1 in head); queries: Select(sorted/unsorted) / LabelValues / LabelNames with 0..4 generated matchers (=,!=,=~,!~; regexes from a pool incl. .*, .+, empty-matching, set-style, negations on absent labels, duplicates on one name), time range, limit; targets: one block, range head, DB.Querier. non-trivial = at least one matcher and the unlimited answer is neither empty nor everything stored; distinct by (world, target, query, matchers, range)"
 	// intern every pool string (names, values, regexes and their SetMatches)
 	for _, s := range []string{"", "zz", "nope"} {
 		intern(s)
@@ -656,7 +744,21 @@ func main() {
 		case wi%10 == 3:
 			wide, wname = int(gen.Pick(r, wideSizes)), gen.Pick(r, []string{"w", "bb"})
 		}
-		w := buildWorld(r, wi, dir, thorough, wide, wname)
+		shuffle := 0
+		switch {
+		case wi == 4: // corpus: new series arrive with ever lower refs
+			shuffle = 2
+		case wi%10 == 6 || wi%10 == 8:
+			shuffle = 1
+		}
+		w := buildWorld(r, wi, dir, thorough, wide, wname, shuffle)
+		if shuffle > 0 {
+			meta.Hit("shuffled-ref-head")
+		}
+		for _, u := range w.unsorted {
+			meta.GoViol = append(meta.GoViol, gallina.GoViolation{ID: fmt.Sprintf("world%d", wi), Shape: "mempostings-unsorted",
+				What: "head MemPostings list not sorted by ref after construction: " + u})
+		}
 		if wide > 0 {
 			meta.Hit(fmt.Sprintf("wide-world:%d", wide))
 		}
@@ -696,6 +798,18 @@ func main() {
 					gms = []gmatcher{mkMatcher(w, labels.MatchEqual, w.wname, "")}
 				case 5:
 					gms = nil
+				}
+			}
+			if w.shuffle == 2 && qi >= 2 && qi <= 5 {
+				switch qi {
+				case 2:
+					gms = []gmatcher{mkMatcher(w, labels.MatchEqual, "job", "db"), mkMatcher(w, labels.MatchRegexp, "c", ".+")}
+				case 3:
+					gms = []gmatcher{mkMatcher(w, labels.MatchEqual, "job", "db"), mkMatcher(w, labels.MatchNotEqual, "a", "x")}
+				case 4:
+					gms = []gmatcher{mkMatcher(w, labels.MatchEqual, "job", "db")}
+				case 5:
+					gms = []gmatcher{mkMatcher(w, labels.MatchEqual, "job", "db"), mkMatcher(w, labels.MatchNotEqual, "c", "")}
 				}
 			}
 			forcedName := "" // LabelValues on this name (limit stream 2)
@@ -792,6 +906,9 @@ func main() {
 			if w.wide > 0 && qi >= 2 && qi <= 9 {
 				mint, maxt = math.MinInt64, math.MaxInt64
 			}
+			if w.shuffle == 2 && qi >= 2 && qi <= 5 {
+				mint, maxt = math.MinInt64, math.MaxInt64
+			}
 			// target
 			mode, target := "DB", "db"
 			var stores []gstore
@@ -804,6 +921,11 @@ func main() {
 			}
 			if w.wide > 0 && qi >= 6 && qi <= 9 {
 				ti = (qi + wi) % 2 // head or block
+			}
+			if w.shuffle == 2 && qi >= 2 && qi <= 5 {
+				ti = 0 // the head
+			} else if w.shuffle > 0 && r.Chance(1, 2) {
+				ti = 0
 			}
 			if ti < len(w.stores) {
 				mode = "Direct"
@@ -851,7 +973,12 @@ func main() {
 					kindSel = 2
 				}
 			}
-			if w.wide == 0 && qi >= 3 && qi <= 5 {
+			shufFixed := w.shuffle == 2 && qi >= 2 && qi <= 5
+			if shufFixed {
+				limit = 0
+				kindSel = map[int]int{2: 0, 3: 1, 4: 2, 5: 3}[qi]
+			}
+			if w.wide == 0 && !shufFixed && qi >= 3 && qi <= 5 {
 				// limit stream: LabelValues/LabelNames with a small limit and one or two broad
 				// matchers on other labels (exercises the limit inside labelValuesWithMatchers)
 				kindSel = 2 + r.Intn(2)
@@ -891,6 +1018,9 @@ func main() {
 				}
 				if w.wide > 0 && (wideFixed || r.Chance(2, 3)) {
 					name = w.wname
+				}
+				if w.shuffle == 2 && qi == 4 {
+					name = "c"
 				}
 				if forcedName != "" {
 					name = forcedName
